@@ -61,6 +61,16 @@ pub struct DItem {
     /// legal moves, chosen (by `pick`) among the extensions whose hash the shared table currently holds - i.e.
     /// among the interior nodes earlier searches stored entries for. `moves` is ignored.
     pub descend: Option<Descend>,
+    /// many-roots meta item: expands at run time into `n` searches of positions reached by seeded random legal walks
+    /// (1..=max_len plies, reference model) from this item's position, all on the shared table
+    pub walks: Option<Walks>,
+}
+
+#[derive(Clone, Debug, PartialEq)]
+pub struct Walks {
+    pub n: u32,
+    pub max_len: u8,
+    pub seed: u64,
 }
 
 #[derive(Clone, Debug, PartialEq)]
@@ -171,7 +181,8 @@ impl Case {
             .iter()
             .map(|i| json!({"root": i.root, "moves": i.moves, "depth": i.depth, "stop_at": i.stop_at, "fresh": i.fresh, "isolated": i.isolated,
                 "sweep": i.sweep.as_ref().map(|w| json!({"all_upto": w.all_upto, "head": w.head, "samples": w.samples, "seed": w.seed})),
-                "descend": i.descend.as_ref().map(|d| json!({"plies": d.plies, "pick": d.pick}))}))
+                "descend": i.descend.as_ref().map(|d| json!({"plies": d.plies, "pick": d.pick})),
+                "walks": i.walks.as_ref().map(|w| json!({"n": w.n, "max_len": w.max_len, "seed": w.seed}))}))
             .collect();
         let policy = match &self.params.policy {
             Policy::Np => json!({"kind": "np"}),
@@ -309,6 +320,7 @@ impl Case {
                     None
                 },
                 descend: if it["descend"].is_object() { Some(Descend { plies: u(&it["descend"], "plies")? as u8, pick: u(&it["descend"], "pick")? }) } else { None },
+                walks: if it["walks"].is_object() { Some(Walks { n: u(&it["walks"], "n")? as u32, max_len: u(&it["walks"], "max_len")? as u8, seed: u(&it["walks"], "seed")? }) } else { None },
             });
         }
         Ok(Case {
